@@ -272,8 +272,26 @@ func e2eMessage(rng *rand.Rand, autoIDs bool, seq int, big bool) *sse.Message {
 		if autoIDs {
 			cur += len("id: \n") + len(strconv.Itoa(seq+1))
 		}
-		if pad := 4097 + pick(rng, 0, 0, 0, -1, 1, 2) - cur - len("data: \n"); pad >= 0 {
-			m.AppendData(strings.Repeat("p", pad))
+		// … as one long line, or (every other one) as 8–14 lines, some of them three times the size: an event of many lines
+		// that does not fit the server's write buffers is written out — and can fail — inside Send, not only at Flush
+		target := 4097 + pick(rng, 0, 0, 0, -1, 1, 2)
+		k := 1
+		if rng.Intn(2) == 0 {
+			k = 8 + rng.Intn(7)
+			if rng.Intn(3) == 0 {
+				target *= 3
+			}
+		}
+		if pad := target - cur - k*len("data: \n"); pad >= k {
+			lines := make([]string, k)
+			for i := range lines {
+				n := pad / k
+				if i == k-1 {
+					n = pad - (k-1)*(pad/k)
+				}
+				lines[i] = strings.Repeat(string(rune('a'+i%26)), n)
+			}
+			m.AppendData(strings.Join(lines, "\n"))
 		}
 	}
 	return m
